@@ -34,6 +34,24 @@ pub struct Stats {
 }
 
 impl Stats {
+    pub fn merge(&mut self, o: Stats) {
+        self.evaluations += o.evaluations;
+        self.distinct.extend(o.distinct);
+        for (k, v) in o.faults_fired {
+            *self.faults_fired.entry(k).or_insert(0) += v;
+        }
+        for (k, v) in o.probes {
+            *self.probes.entry(k).or_insert(0) += v;
+        }
+        self.generator_rejects += o.generator_rejects;
+        self.schedules.extend(o.schedules);
+        self.states.extend(o.states);
+        for s in o.samples {
+            self.sample(s);
+        }
+        self.steps += o.steps;
+    }
+
     pub fn fault(&mut self, kind: &str) {
         *self.faults_fired.entry(kind.to_string()).or_insert(0) += 1;
     }
@@ -186,4 +204,33 @@ pub fn thread_cpu_secs() -> f64 {
         libc::clock_gettime(libc::CLOCK_THREAD_CPUTIME_ID, &mut ts);
     }
     ts.tv_sec as f64 + ts.tv_nsec as f64 * 1e-9
+}
+
+/// CPU time consumed so far by another thread of this process.
+pub fn cpu_secs_of(thread: libc::pthread_t) -> Option<f64> {
+    let mut clock: libc::clockid_t = 0;
+    let rc = unsafe { libc::pthread_getcpuclockid(thread, &mut clock) };
+    if rc != 0 {
+        return None;
+    }
+    let mut ts = libc::timespec { tv_sec: 0, tv_nsec: 0 };
+    if unsafe { libc::clock_gettime(clock, &mut ts) } != 0 {
+        return None;
+    }
+    Some(ts.tv_sec as f64 + ts.tv_nsec as f64 * 1e-9)
+}
+
+pub static HEARTBEAT: std::sync::atomic::AtomicU64 = std::sync::atomic::AtomicU64::new(0);
+thread_local! {
+    pub static CURRENT_STEP: std::cell::RefCell<String> = const { std::cell::RefCell::new(String::new()) };
+}
+pub static CURRENT_STEP_SHARED: std::sync::Mutex<String> = std::sync::Mutex::new(String::new());
+
+/// Called by checks before every public decoder call: feeds the hang watchdog.
+pub fn heartbeat(step: &str) {
+    HEARTBEAT.fetch_add(1, std::sync::atomic::Ordering::Relaxed);
+    if let Ok(mut g) = CURRENT_STEP_SHARED.try_lock() {
+        g.clear();
+        g.push_str(step);
+    }
 }
